@@ -5,7 +5,7 @@ the conversion wrapper, and the operation-method table of C04
 
   mk.op <name> <operand>* [<attr name> | <needle hash>]     -> ok <v> | panic | …
   mk.judge <name> <extra> (<operand>*) <marked out> <clean out> -> pass | fail
-  mk.mark v m | mk.withmarks v ((m*)*) | mk.unmark v | mk.unmarkdeep v
+  mk.mark v m | mk.withmarks v ((m*)*) | mk.unmark v | mk.unmarkdeep v | mk.unmarkdeepr v (sets rebuilt)
   mk.unmarkpaths v | mk.markpaths v (pvm*) | mk.withsamemarks v (src*)
   mk.hasmark v m | mk.obs v | mk.hassamemarks a b
   mk.setval (v*) (hash*) | mk.listval (v*) | mk.mapval (key*) (v*)
@@ -38,6 +38,7 @@ def opOfName (name : String) (extra : Sexp) : Option Op :=
   | "div" => some .div | "mod" => some .mod | "neg" => some .neg | "abs" => some .abs
   | "not" => some .not | "and" => some .and | "or" => some .or | "lt" => some .lt | "gt" => some .gt
   | "index" => some .index | "hasindex" => some .hasIndex | "length" => some .length
+  | "notequal" => some .notEqual | "le" => some .le | "ge" => some .ge
   | "getattr" => (Sexp.decStr extra).map Op.getAttr
   | "haselement" =>
     match extra with
@@ -103,6 +104,9 @@ def handleMarks : Handler := fun op args =>
     pure s!"{r.1.toSexp} {marksSexp r.2}"
   | "mk.unmarkdeep", [v] => do
     let r := (← Value.ofSexp v).unmarkDeepPair
+    pure s!"{r.1.toSexp} {marksSexp r.2}"
+  | "mk.unmarkdeepr", [v] => do
+    let r := (← Value.ofSexp v).unmarkDeepRPair (fun _ _ _ => false)
     pure s!"{r.1.toSexp} {marksSexp r.2}"
   | "mk.unmarkpaths", [v] => do
     let r := (← Value.ofSexp v).unmarkDeepWithPaths
